@@ -188,6 +188,7 @@ def evaluate(out, pid, casesets, budget, per_group=2):
     for (g, q), (path, rep, log) in zip(todo, tr):
         c = allcases[q['case']]; t = c['table']
         sig = '%s:%s:%s:%s:%s' % (pid, g[0] + ('~' + g[1] if g[1] else ''), g[2], g[3], 'orders=' + '-'.join(map(str, t.orders)))
+        if g[2] == 'divzero' and any(len(set(k)) < len(k) for k in t.knots): sig += ':repeated-knots'      # a knot of multiplicity > 1: zero-width spans in the recursion
         what = '%s at %s (orders %s, nknots %s): %s; %d obligation(s) fail this way' % (q['label'], g[3], t.orders, [len(k) for k in t.knots], 'result depends on uninitialised memory' if g[2] == 'uninit' else ('divisor can be zero' if g[2] == 'divisor' else ('the code divides by an exact zero (NaN/inf result)' if g[2] == 'divzero' else 'result differs from the B-spline definition')), len(groups[g]))
         if rep: out.add_violation(sig, what, path, log)
         elif g[2] == 'uninit': out.add_violation(sig, what + ' (replay value happened to agree; the dependence on uninitialised stack memory is shown by the symbolic run)', path, log)
